@@ -12,7 +12,7 @@ and the assembler are abstract parameters of the runner theorems (their models b
 Not proved here: that the CONCRETE analyser / assembler models ignore the session when the provider is falsy
 (`analyze_ignores_session_when_falsy` of DESIGN.md §5 — `Model.Walk` / `Model.Assemble` are other layers); it is the hypothesis
 `Falsy` below and is exercised on the real code by part C of `harness/c05.py`.  Likewise insensitivity of the analysis to
-attached comments / blanks / the trailing `;` (C07) is the hypothesis `hresp` of `script_eq_statements`.
+attached comments / blanks / the trailing `;` (C07) is the hypothesis `hresp` of `script_eq_statements_partial`.
 -/
 import SqlLineage.Model.Split
 import SqlLineage.Spec.Split
@@ -239,12 +239,20 @@ private theorem analyzeAll_congr (f : List Char → Except ε H)
       simp only [List.map_cons, List.cons.injEq] at h
       simp only [List.map_cons, analyzeAll, hresp p q h.1, ih r2 h.2]
 
-/-- **script_eq_statements** — the lineage of a script equals the assembly of what each of its statements yields when
+/- FULL STATEMENT (not proved): the same without `hstrip`, i.e. for scripts that carry outer blanks as well
+     (runScript … (render (scriptToks lead items))).1 = match analyzeAll … (items.map (render ∘ fst)) with …
+   Missing: `_eval` strips the script first, and `strip (render ts)` is not `render` of a sub-list of `ts` in general — a
+   trailing `-- c ⏎` loses its LF and the blanks at the end of its body, `# ⏎` even stops being a comment — so
+   `split_render` would have to be re-established for the stripped token list.  `hstrip` (decidable) restricts the three
+   runner corollaries below to scripts without outer blanks; `helpers.split` itself (`split_render`, `count_eq`) has no such
+   restriction, and the correspondence compares `_eval`'s texts with the model's `runnerSplit = split ∘ strip` on scripts
+   with outer blanks too. -/
+/-- **script_eq_statements_partial** — the lineage of a script equals the assembly of what each of its statements yields when
     analysed on its own text alone, for every script of the quantifier's shape.
     Hypotheses beyond well‑formedness: the provider is falsy; the per‑statement analysis does not depend on comments, the
     trailing `;` and outer blanks (that is property C07, here an assumption on the abstract `analyze`); the script has no
     outer blanks (`_eval` strips it first). -/
-theorem script_eq_statements (r : Runner σ H R ε) (s0 : σ) (hf : Falsy r s0)
+theorem script_eq_statements_partial (r : Runner σ H R ε) (s0 : σ) (hf : Falsy r s0)
     (hresp : ∀ p q : List Tok, essence p = essence q → r.analyze s0 (render p) = r.analyze s0 (render q))
     (lead : List Tok) (items : List (List Tok × List Tok)) (h : WellFormedScript lead items)
     (hstrip : strip (render (scriptToks lead items)) = render (scriptToks lead items))
@@ -260,7 +268,7 @@ theorem script_eq_statements (r : Runner σ H R ε) (s0 : σ) (hf : Falsy r s0)
   rfl
 
 /-- a statement run alone: one holder, assembled alone -/
-theorem single_statement_run (r : Runner σ H R ε) (s0 : σ) (hf : Falsy r s0) (s : List Tok) (hwf : wf s = true)
+theorem single_statement_run_partial (r : Runner σ H R ε) (s0 : σ) (hf : Falsy r s0) (s : List Tok) (hwf : wf s = true)
     (hs : stmtOk s = true) (hstrip : strip (render s) = render s)
     (b : Bool) (dialect : String) (f : List Char → List (List Char)) (hmode : b = false ∨ dialect ≠ "tsql") :
     (runScript r s0 b dialect f (render s)).1 =
@@ -272,10 +280,10 @@ theorem single_statement_run (r : Runner σ H R ε) (s0 : σ) (hf : Falsy r s0) 
   simp only [analyzeAll]
   cases r.analyze s0 (render s) <;> simp
 
-/-- **script_concat** — for a total analysis and an assembler that is a homomorphism from holder lists (an associative
+/-- **script_concat_partial** — for a total analysis and an assembler that is a homomorphism from holder lists (an associative
     combination `op`, which is what "assembling" means), the result for `script₁ script₂` is the combination of the
     results for `script₁` and for `script₂`. -/
-theorem script_concat (r : Runner σ H R Empty) (s0 : σ) (hf : Falsy r s0)
+theorem script_concat_partial (r : Runner σ H R Empty) (s0 : σ) (hf : Falsy r s0)
     (hresp : ∀ p q : List Tok, essence p = essence q → r.analyze s0 (render p) = r.analyze s0 (render q))
     (a : List Char → H) (hok : ∀ st, r.analyze s0 st = .ok (a st))
     (combine : List H → R) (op : R → R → R) (hbuild : ∀ hs, r.build s0 hs = .ok (combine hs))
@@ -294,9 +302,9 @@ theorem script_concat (r : Runner σ H R Empty) (s0 : σ) (hf : Falsy r s0)
     | nil => rfl
     | cons st rest ih => simp [analyzeAll, hok, ih]
   refine ⟨combine ((i1.map (fun p => render p.1)).map a), combine ((i2.map (fun p => render p.1)).map a), ?_, ?_, ?_⟩
-  · rw [script_eq_statements r s0 hf hresp lead i1 h1 s1 false dialect f (Or.inl rfl), hall]; simp [hbuild]
-  · rw [script_eq_statements r s0 hf hresp [] i2 h2 s2 false dialect f (Or.inl rfl), hall]; simp [hbuild]
-  · rw [script_eq_statements r s0 hf hresp lead (i1 ++ i2) h12 s12 false dialect f (Or.inl rfl), hall]
+  · rw [script_eq_statements_partial r s0 hf hresp lead i1 h1 s1 false dialect f (Or.inl rfl), hall]; simp [hbuild]
+  · rw [script_eq_statements_partial r s0 hf hresp [] i2 h2 s2 false dialect f (Or.inl rfl), hall]; simp [hbuild]
+  · rw [script_eq_statements_partial r s0 hf hresp lead (i1 ++ i2) h12 s12 false dialect f (Or.inl rfl), hall]
     simp [hbuild, hhom]
 
 /-! ### 6. Non‑vacuity: concrete scripts (evaluated by the kernel) -/
